@@ -53,6 +53,7 @@ def run(prog, tier):
     for f in cps:
         cp_function(prog, chk, f, lib)
     refractive(prog, chk)
+    formula_composition(prog, chk, tier)
     return chk
 
 
@@ -318,3 +319,26 @@ def refractive(prog, chk):
                    why='same constant %s in both' % float(lits['Im']))
     else:
         chk.inconclusive('refractive-agreement', U, 'could not extract the imaginary-part constant from both functions')
+
+
+
+def formula_composition(prog, chk, tier):
+    """"For every chemical formula ... the sum over the compound's elements of mass fraction times the elemental function": the record
+    the _CP functions sum over must be the composition the formula denotes - atom counts with group multipliers and fractional
+    subscripts, mass fractions = count x atomic weight / molar mass.  That is the parser analysis of rules/c07.py (structural induction
+    over the formula); its verdicts are read here as the composition clause of this property."""
+    from rules import c07
+    shim = c07.run(prog, tier)
+    take = ('merge-adds-count', 'count-is-subscript', 'group-recursion', 'element-known', 'composition-formulas', 'weights-paired', 'sorted-by-Z',
+            'no-weight-rejected', 'scanner-alphabet')
+    n = 0
+    for rule, inst, why, loc in shim.held:
+        if rule in take:
+            n += 1
+    bad = [v for v in shim.violations if v['rule'] in take]
+    for v in bad:
+        chk.bad('formula-composition', v['unit'], v['function'], '%s: %s' % (v['rule'], v['instance']), v['loc'],
+                'the composition that every _CP function and the refractive index sum over is not the one the formula denotes: ' + v['message'])
+    if not bad:
+        chk.ok('formula-composition', 'CompoundParser', 'the parser analysis of C07 holds (%d obligations on counts, multipliers, subscripts, fractions)' % n, 'src/xraylib-parser.c')
+    chk.floor('parser obligations behind the composition clause', n + len(bad), 100)
